@@ -329,7 +329,9 @@ GENERIC_DESC = (
     "R-MEMO a loop-local memo dict stores values that depend on the loop only through the key; "
     "R-REMAINDER sign-preserving remainder/truncation primitives (fmod, modf, trunc) are used only inside odc.geo.math; "
     "R-FALLBACK a fallback_* parameter never conditions the computation it stands in for; "
-    "R-TOL math.isclose never receives a caller's absolute tolerance with the default relative one"
+    "R-TOL math.isclose never receives a caller's absolute tolerance with the default relative one; "
+    "R-SIGNMAG max()/min() over resolution components only after abs(); "
+    "R-ZERODIV an optional integer parameter used as divisor/alignment is excluded from being 0, not only from being None"
 )
 
 
@@ -357,7 +359,7 @@ def _with_generic(pid, fn):
     def wrapped(prog: Program, run: Run, tier: str) -> None:
         fn(prog, run, tier)
         mods = {m for m in ANCHORED.get(pid, set()) if m in prog.modules}
-        run.add(generic.rule_dup(prog, mods) + generic.rule_truthy(prog, mods) + generic.rule_abseps(prog, mods) + generic.rule_localmemo(prog, mods) + generic.rule_remainder_owner(prog, mods) + generic.rule_fallback(prog, mods) + generic.rule_isclose(prog, mods), GENERIC_DESC)
+        run.add(generic.rule_dup(prog, mods) + generic.rule_truthy(prog, mods) + generic.rule_abseps(prog, mods) + generic.rule_localmemo(prog, mods) + generic.rule_remainder_owner(prog, mods) + generic.rule_fallback(prog, mods) + generic.rule_isclose(prog, mods) + generic.rule_signed_magnitude(prog, mods) + generic.rule_zerodiv(prog, mods), GENERIC_DESC)
 
     wrapped.__name__ = pid
     wrapped.__doc__ = fn.__doc__
